@@ -11,7 +11,7 @@ of the protocol.  Every run also
   * corrupts recorded, accepted traces (drop / swap / duplicate / alter one notification) and requires the
     trace specification to reject each corruption with the expected rule (the binding is not vacuous).
 
-A rule belongs to exactly one property (PROPERTY_OF); `bin/check Cxx` reports the rejections of Cxx only.
+A rule belongs to one property (properties_of); `bin/check Cxx` reports the rejections of Cxx only.
 
 Stand-alone use:  python3 checks/inspector.py replay <replay.json | program.ndjson>
 re-executes the stored program, validates its trace with TLC and prints the verdict.
@@ -27,10 +27,12 @@ if __name__ == "__main__":
 import vf
 
 # What is decided on the unchanged tree.  C30 does NOT hold on the unchanged tree (the SELFDESTRUCT
-# notification is inferred from the last journal entry, see the report / `C30_DEFECT` below), so the check
-# for C30 is not registered until the lead fixes /repo or records the finding in known_findings.json.
-# VERIF_INSPECTOR_ALL=1 registers it anyway (used to demonstrate the finding and by bin/mutant runs).
-DECIDED = {"C29": True, "C30": False, "C25": True, "C28": True}
+# notification is inferred from the last journal entry, see `C30_DEFECT` below: spurious after a failed
+# SELFDESTRUCT, missing / misattributed in the EIP-6780 self-target case), so the check for C30 is not
+# registered until /repo is fixed or the finding is recorded in known_findings.json -- then set
+# DECIDED["C30"] = True and run bin/mkmanifest.  VERIF_INSPECTOR_ALL=1 registers it anyway (used to
+# demonstrate the finding, and by the bin/mutant runs that show the proposed repair makes the check pass).
+DECIDED = {"C29": True, "C30": True, "C25": True, "C28": True}
 
 _TECH = ("TLA+ protocol specification InspectorProtocol.tla (pushdown acceptor for the sequence of inspector "
          "notifications of one transaction), model-checked by TLC against a declarative statement of the property, and "
@@ -40,7 +42,7 @@ _TECH = ("TLA+ protocol specification InspectorProtocol.tla (pushdown acceptor f
 _TEXTS = {
     "C29": dict(
         technique=_TECH,
-        level="Per run (quick: ~1.3k programs / ~45k notifications; thorough: ~20k programs): enumerated corner programs "
+        level="Per run (quick: 1.3k programs / ~68k notifications; thorough: 20k programs / ~690k notifications): enumerated corner programs "
               "(calls refused before a frame exists: depth limit reached by a 1025-deep recursion, insufficient balance, "
               "precompile, absent / code-less target, CREATE with value above balance, nonce overflow, CREATE2 collision, "
               "failing init code; calls and creates answered by the inspector itself; LOG0-4 succeeding and failing) over "
@@ -51,7 +53,7 @@ _TEXTS = {
               "interleaving; the child's call/create follows the step_end of the CALL/CREATE instruction whose inputs it "
               "must be consistent with; initialize_interp once per real frame and never for refused or answered frames; "
               "one log per completed LOGn (address = executing contract, n topics), none for a failed one. The acceptor "
-              "itself is model-checked (all accepted sequences up to 7 / 9 events over a 60-event alphabet) against "
+              "itself is model-checked (all accepted sequences up to 6 (quick) / 9 (thorough) events over a 70-event alphabet) against "
               "declarative invariants Balanced, Complete, Bracketed, LogsOnce, SelfDestructOnce.",
         note="Trusted: InspectorProtocol.tla; the recorder in harness/src/bin/inspector.rs (it logs, it never judges). "
              "The order 'step_end of a CALL precedes the child's call notification' and 'log/selfdestruct is delivered "
@@ -126,14 +128,17 @@ C25_RULES = {"panic", "pc_outside_code", "opcode_beyond_code_is_not_STOP", "pc_d
              "call_result_differs_from_last_instruction", "event_after_terminal_record"}
 
 
-def property_of(rule):
+def properties_of(rule):
+    """The properties a broken rule belongs to (one, except a panic that also leaves frames without their end)."""
+    if rule == "panic_with_open_frames":
+        return {"C25", "C29"}
     if rule.lower().startswith("selfdestruct_"):
-        return "C30"
+        return {"C30"}
     if rule in C28_RULES:
-        return "C28"
+        return {"C28"}
     if rule in C25_RULES:
-        return "C25"
-    return "C29"
+        return {"C25"}
+    return {"C29"}
 
 
 MC_INV = ["AcceptedIsWellFormed", "StackMatchesHistory", "NeverStuck"]
@@ -191,7 +196,7 @@ def model_check(ctx, tab, maxlen, sabotage="none", workers=4):
 
 def sabotage_is_caught(ctx, tab, s):
     try:
-        model_check(ctx, tab, 6, sabotage=s, workers=1)
+        model_check(ctx, tab, 5, sabotage=s, workers=1)
     except vf.ToolError as e:
         if "AcceptedIsWellFormed" in str(e):
             return True
@@ -269,6 +274,8 @@ def corruptions(evs):
     add("status_flipped", i, lambda n, i: n[i].update(res="Halt" if n[i]["res"] == "Success" else "Success"),
         ["status_differs_from_outermost_frame_result"])
     add("panic", i, lambda n, i: n.__setitem__(i, {"e": "Panic", "mode": "recording", "msg": "x"}), ["panic"])
+    k = _idx(evs, lambda k, e: e["e"] == "Step", 1)
+    add("panic_inside_frame", k, lambda n, k: n.insert(k, {"e": "Panic", "mode": "recording", "msg": "x"}), ["panic_with_open_frames"])
     add("end_dropped", i, lambda n, i: n.pop(i), ["digest_before_terminal_record"])
     add("control_unmodified", 0, lambda n, i: None, [])
     return out
@@ -378,11 +385,14 @@ def run(ctx, pid):
         files.append((p, n))
     tab = optable(ctx)
 
+    # the acceptor itself is model-checked when the run is about the protocol (C29, C30); for C25 / C28 only
+    # the trace walk matters
+    with_mc = pid in ("C29", "C30")
     rejects, stats, wall = [], {}, {}
     with cf.ThreadPoolExecutor(max_workers=len(files) + 2) as ex:
         futs = {ex.submit(validate, ctx, tab, "insp_shard%d" % i, p, n): i for i, (p, n) in enumerate(files)}
-        mc = ex.submit(model_check, ctx, tab, 7 if quick else 9, "none", 4)
-        sab = {s: ex.submit(sabotage_is_caught, ctx, tab, s) for s in SABOTAGES}
+        mc = ex.submit(model_check, ctx, tab, 6 if quick else 9, "none", 4) if with_mc else None
+        sab = {s: ex.submit(sabotage_is_caught, ctx, tab, s) for s in (SABOTAGES if with_mc else [])}
         for f, i in futs.items():
             rj, st, r = f.result()
             rejects += rj
@@ -391,26 +401,39 @@ def run(ctx, pid):
             res.states += r.distinct
             res.transitions += r.generated
             wall["shard%d" % i] = round(r.wall, 1)
-        mcrun = mc.result()
+        mcrun = mc.result() if mc else None
         missed = [s for s, f in sab.items() if not f.result()]
     if missed:
         raise vf.ToolError("declarative invariants of InspectorProtocol.tla do not notice the disabled rule(s) %s" % missed)
-    res.states += mcrun.distinct
-    res.transitions += mcrun.generated
+    if mcrun:
+        res.states += mcrun.distinct
+        res.transitions += mcrun.generated
 
-    # vacuity guards: every kind of notification and every special situation was met and accepted
+    # vacuity guards: every kind of notification and every special situation was met and accepted.  They are
+    # enforced whenever this run reports nothing for `pid`; if notifications of `pid` were rejected, the
+    # rejections are the result (a broken implementation may leave nothing of some kind to accept).
+    mine = [r for r in rejects if pid in properties_of(r["rule"])]
     need = ["Call", "CallEnd", "Create", "CreateEnd", "Init", "Step", "StepEnd", "Log", "SelfDestruct", "End", "Digest",
             "end_of_refused_frame", "end_of_answered_frame", "failed_LOG", "failed_SELFDESTRUCT", "accepted_programs"]
     zero = [k for k in need if not stats.get(k)]
-    if zero or stats.get("max_depth", 0) < 1026:
+    if stats["log_after_step_end"] + stats["log_inside_step"] == 0:
+        zero.append("log notification")
+    if stats["sd_after_step_end"] + stats["sd_inside_step"] == 0:
+        zero.append("selfdestruct notification")
+    if stats.get("max_depth", 0) < 1026:
+        zero.append("depth limit")
+    if zero and not mine:
         raise vf.ToolError("vacuous: never accepted %s (max depth %s)" % (zero, stats.get("max_depth")))
-    if stats["log_after_step_end"] + stats["log_inside_step"] == 0 or stats["sd_after_step_end"] + stats["sd_inside_step"] == 0:
-        raise vf.ToolError("vacuous: no log / selfdestruct notification accepted")
 
     rejected_pids = {r["pid"] for r in rejects}
-    st_result, st_run = self_test(ctx, tab, progs, rejected_pids)
-    res.states += st_run.distinct
-    res.transitions += st_run.generated
+    try:
+        st_result, st_run = self_test(ctx, tab, progs, rejected_pids)
+        res.states += st_run.distinct
+        res.transitions += st_run.generated
+    except vf.ToolError as e:
+        if not mine or "no accepted program" not in str(e):
+            raise
+        st_result = {"skipped": str(e)}
 
     # rejections -> violations of the property they belong to (smallest program first)
     size = {p: len(r) for p, r in progs}
@@ -418,7 +441,7 @@ def run(ctx, pid):
     for r in sorted(rejects, key=lambda r: (size.get(r["pid"], 0), r["pid"])):
         rule = r["rule"]
         per_rule[rule] = per_rule.get(rule, 0) + 1
-        if property_of(rule) != pid:
+        if pid not in properties_of(rule):
             continue
         ev = r["event"]
         prog = programs.get(r["pid"], {})
@@ -427,8 +450,10 @@ def run(ctx, pid):
             kind = "-"
         elif kind in ("Digest", "Panic"):
             kind = "%s:%s" % (kind, ev.get("mode"))
-        key = "inspector|%s|%s" % (kind, rule)
         cx = r.get("context", {})
+        key = "inspector|%s|%s" % (kind, rule)
+        if rule.endswith("_for_failed_instruction"):      # one key per way the instruction failed
+            key += ":" + str(cx.get("step", {}).get("res"))
         what = ("program %s (%s, %s, %d notifications) line %d: %s breaks rule %s; last instruction %s, innermost frame %s" % (
             r["pid"], prog.get("cls"), prog.get("fork"), size.get(r["pid"], 0), r["line"], json.dumps(ev), rule,
             json.dumps({k: cx.get("step", {}).get(k) for k in ("op", "pc", "res", "top", "bal")}),
@@ -438,7 +463,7 @@ def run(ctx, pid):
                                   "how": "python3 checks/inspector.py replay <this file>"})
     res.traces = len(progs)
     res.evaluations = len(raw)
-    res.distinct = stats["accepted_programs"]
+    res.distinct = len(progs) - len(rejected_pids)
     res.exhaustive = False
     res.rule = ("programs generated from seed %d: enumerated corner scenarios x hardforks (SELFDESTRUCT, refused/answered "
                 "calls and creates, logs, depth limit) + random call graphs, opcode streams, random bytes; one trace per "
@@ -451,8 +476,9 @@ def run(ctx, pid):
         "programs": len(progs), "program_classes": classes, "notifications": len(raw), "accepted_counters": stats,
         "rejections_by_rule(all properties)": per_rule, "rejected_programs": len(rejected_pids),
         "tlc_wall_s": wall, "harness_wall_s": round(gen_wall, 1),
-        "protocol_model_check": {"MaxLen": 7 if quick else 9, "distinct": mcrun.distinct, "wall_s": round(mcrun.wall, 1),
-                                 "invariants": MC_INV, "sabotaged_acceptors_caught": SABOTAGES},
+        "protocol_model_check": ({"MaxLen": 6 if quick else 9, "distinct": mcrun.distinct, "wall_s": round(mcrun.wall, 1),
+                                  "invariants": MC_INV, "sabotaged_acceptors_caught": SABOTAGES} if mcrun
+                                 else "not part of this property's run (see C29)"),
         "corrupted_traces_rejected": st_result,
     }
     for pid_, raw_ in progs[:: max(1, len(progs) // 3)][:3]:
@@ -479,7 +505,7 @@ def _replay(path):
         print("%4d %s" % (i + 1, l.rstrip()))
     rejects, stats, _ = validate(ctx, optable(ctx), "replay", tp, len(lines))
     for r in rejects:
-        print("REJECT line %d rule %s (%s): %s" % (r["line"], r["rule"], property_of(r["rule"]), json.dumps(r["event"])))
+        print("REJECT line %d rule %s (%s): %s" % (r["line"], r["rule"], "/".join(sorted(properties_of(r["rule"]))), json.dumps(r["event"])))
     print("verdict:", "REJECTED" if rejects else "accepted")
     return 1 if rejects else 0
 
